@@ -15,10 +15,10 @@ import (
 type stdClass int
 
 const (
-	stdUnknown   stdClass = iota
-	stdPure               // no side effects, reads its arguments only, deterministic, never writes shared state
-	stdMutatesArg         // pure except that it writes through argument MutArg (sort.Slice, …)
-	stdForbidden          // I/O, clock, randomness, environment, goroutines, process state
+	stdUnknown    stdClass = iota
+	stdPure                // no side effects, reads its arguments only, deterministic, never writes shared state
+	stdMutatesArg          // pure except that it writes through argument MutArg (sort.Slice, …)
+	stdForbidden           // I/O, clock, randomness, environment, goroutines, process state
 )
 
 type stdInfo struct {
